@@ -56,6 +56,13 @@ func (m *w2mon) overwrittenByOtherVersion(src, name, hash string) bool {
 			return true
 		}
 	}
+	// a part of another version whose reception began before this version
+	// appeared and is still streaming into the staged file
+	for _, f := range m.inflight[src+"/"+name] {
+		if f.desc.Hash != hash {
+			return true
+		}
+	}
 	return false
 }
 
@@ -100,6 +107,7 @@ func (m *w2mon) beginReceive(d *gkDeco, desc partDesc, hr *hashReader) func() {
 	m.s.mu.Unlock()
 	return func() {
 		m.s.mu.Lock()
+		m.began[k] = append(m.began[k], desc) // its end counts too: it was writing until now
 		l := m.inflight[k]
 		for i, x := range l {
 			if x == f {
